@@ -418,12 +418,14 @@ class World:
         if k == 'job_pr':
             pr = self.repos[ROBOT].get_pull_request(pull_request_id=ev['pr'])
             pr.client = b.client
-            return self.jobmod.PullRequestJob(bert_e=b, pull_request=deepcopy(pr), settings=ev.get('settings', {}))
+            # as the webhook handlers build it (bert_e/server/webhook.py): no settings argument unless the event has one
+            kw = {'settings': ev['settings']} if 'settings' in ev else {}
+            return self.jobmod.PullRequestJob(bert_e=b, pull_request=deepcopy(pr), **kw)
         if k == 'job_commit':
             sha = ev.get('sha') or self.refs().get(ev['ref'])
             if sha is None:
                 return None
-            return self.jobmod.CommitJob(bert_e=b, commit=sha, settings={})
+            return self.jobmod.CommitJob(bert_e=b, commit=sha)
         if k == 'job_api':
             from bert_e.jobs.create_branch import CreateBranchJob
             from bert_e.jobs.delete_branch import DeleteBranchJob
@@ -434,6 +436,11 @@ class World:
             cls = {'create_branch': CreateBranchJob, 'delete_branch': DeleteBranchJob,
                    'delete_queues': DeleteQueuesJob, 'rebuild_queues': RebuildQueuesJob,
                    'force_merge_queues': ForceMergeQueuesJob, 'eval_pr': EvalPullRequestJob}[ev['kind']]
+            if 'body' in ev:
+                # as APIEndpoint.view builds it: URL arguments as kwargs, the JSON body of the request as settings,
+                # the session's user (any authenticated user for a non-admin endpoint)
+                return cls(bert_e=b, kwargs=dict(ev.get('args', {})), settings=dict(ev['body']),
+                           user=ev.get('user', ADMIN))
             return cls(bert_e=b, settings=dict(ev.get('args', {})), user=ADMIN)
         raise ValueError(ev)
 
@@ -457,11 +464,21 @@ class World:
         self._reset_stages()
         rec = Recorder(self)
         before = len(b.tasks_done)
+        worker_died = None
         with rec:
             b.put_job(job)
-            b.process_task()
+            try:
+                b.process_task()
+            except Exception as exc:
+                # process_task handles every Exception of a job itself: one that escapes it ends the worker loop
+                # (`while True: bert_e.process_task()` in its thread).  Recorded; the history goes on with what a
+                # restarted worker would find.
+                import traceback as _tb
+                worker_died = '%s: %s | %s' % (type(exc).__name__, exc, _tb.format_exc()[-600:])
+                b.status.pop('current job', None)
         self.jobs_run += 1
         return {'status': job.status or ('OK' if job.done else 'NOTDONE'), 'details': job.details,
+                'worker_died': worker_died,
                 'fault_fired': bool(fault and fault.get('fired')), 'fault_command': (fault or {}).get('command'),
                 'fault_used': fault,
                 'trace': self.trace, 'ops': self.ops, 'done': job.done, 'stages': list(self.stages.roots),
